@@ -470,11 +470,11 @@ def rewrite_fn(text, contract, report, make_pub=True):
             lc = loops.get(loop_idx)
             if lc:
                 chunk = ""
+                if lc.get("invariant_except_break"):
+                    chunk += f"\n        invariant_except_break\n" + ",\n".join("            " + c.strip().rstrip(",") for c in lc["invariant_except_break"]) + ","
                 if lc.get("invariant"):
                     tag = f"/*@invariant:loop{loop_idx}@*/"
                     chunk += f"\n        {tag} invariant\n" + ",\n".join("            " + c.strip().rstrip(",") for c in lc["invariant"]) + ","
-                if lc.get("invariant_except_break"):
-                    chunk += f"\n        invariant_except_break\n" + ",\n".join("            " + c.strip().rstrip(",") for c in lc["invariant_except_break"]) + ","
                 if lc.get("ensures"):
                     chunk += f"\n        ensures\n" + ",\n".join("            " + c.strip().rstrip(",") for c in lc["ensures"]) + ","
                 if lc.get("decreases"):
@@ -493,7 +493,16 @@ def rewrite_fn(text, contract, report, make_pub=True):
     for anchor, ghost, where_ in contract.get("at", []):
         if where_ in ("loop_end", "loop_start"):
             continue
-        pos = text.rfind(anchor) if where_ == "before_last" else text.find(anchor, st[body_open].start)
+        nth = 1
+        if "#" in where_:
+            where_, nth_ = where_.split("#"); nth = int(nth_)
+        if where_ == "before_last":
+            pos = text.rfind(anchor)
+        else:
+            pos = st[body_open].start - 1
+            for _ in range(nth):
+                pos = text.find(anchor, pos + 1)
+                if pos < 0: break
         if pos < 0 or pos < st[body_open].start:
             raise ExtractError(f"lost anchor in {contract['name']}: {anchor!r}")
         p = pos if where_ in ("before", "before_last") else pos + len(anchor)
